@@ -351,6 +351,16 @@ class FullFrontend(ConstrainedFrontend):
         except BackendError as e:
             raise ClaripyFrontendError("Backend error during solve") from e
         unsat_core = self._solver_backend.unsat_core(solver)
+        if len(unsat_core) == 0 and self._track:
+            # Z3 derives no core on a solver that was already found inconsistent before further assertions were
+            # tracked on it; an empty core is never an answer, so ask a solver that is given all constraints at once
+            self._tls.solver = None
+            solver = self._get_solver()
+            try:
+                self._solver_backend.satisfiable(extra_constraints=extra_constraints, solver=solver)
+            except BackendError as e:
+                raise ClaripyFrontendError("Backend error during solve") from e
+            unsat_core = self._solver_backend.unsat_core(solver)
 
         return tuple(unsat_core)
 
